@@ -74,7 +74,8 @@ def run(R):
     sgroups = [sops[i:i + 8] for i in range(0, len(sops), 8)]
     _, sil, sml = R.run_pair_sharded(sgroups, variant="O0", env={"XC_STACKSCAN": "1"})
     diffs += compare(R, sops, sil, sml, proj, "-O0 build")
-    ENC = {1: "raw", 2: "UCS-2", 4: "shifted DES key", 8: "HMAC inner pad", 16: "HMAC outer pad", 32: "byte-swapped 32-bit words", 64: "byte-swapped 64-bit words"}
+    ENC = {1: "raw", 2: "UCS-2", 4: "shifted DES key", 8: "HMAC inner pad", 16: "HMAC outer pad", 32: "byte-swapped 32-bit words", 64: "byte-swapped 64-bit words",
+           128: "the hashed HMAC key H(phrase)"}
     for op, line in zip(sops, sil):
         f = fields(line)
         if "stk" not in f and fields(line).get("ret") is not None and unhx(op.split(" ")[3]) is not None:
@@ -83,6 +84,22 @@ def run(R):
             mask = int(f["stk"])
             bad.append((op, "part of the passphrase (%s) remains in the stack region the call used, %s bytes below the caller's frame, in a -O0 build"
                         % (", ".join(v for k, v in ENC.items() if mask & k), f.get("stkdepth")), line))
+    # the same for the HMAC primitives called directly (-O0 build): what a later statement of the calling method happens to overwrite is still a
+    # missed wipe of the primitive (seeded/C09h: SHA1(key) - the key HMAC uses for keys longer than its block - left behind, covered up in
+    # crypt_sha1crypt_rn by a later snprintf at -O0)
+    hops = []
+    for alg in ("sha1", "sha256"):
+        for kl in ([8, 20, 63, 64, 65, 100, 200, 511] if quick else list(range(8, 140)) + [200, 511]):
+            for tl in (0, 13, 64, 100):
+                hops.append("HM %s %s %s" % (alg, hx(bytes(R.rng.randrange(1, 256) for _ in range(kl))), hx(bytes(R.rng.randrange(256) for _ in range(tl))) if tl else "."))
+    hl = R.run_impl(hops, variant="O0", env={"XC_STACKSCAN": "1"})
+    for op, line in zip(hops, hl):
+        f = fields(line)
+        if "stk" not in f: bad.append((op, "the stack scan did not run (harness error)", line))
+        elif f["stk"] != "0":
+            mask = int(f["stk"])
+            bad.append((op, "the HMAC key (%s) remains in the stack region the primitive used, in a -O0 build" % ", ".join(v for k, v in ENC.items() if mask & k), line))
+    R.cov["hmac_stack_ops"] = len(hops)
     # 1c. the entropy crypt_gensalt* draws itself (rbytes == NULL; the OS source is interposed with a known byte string): successful calls and
     #     every kind of failing call of every method, three entry points; no 8-byte window of the drawn bytes may remain on the stack (-O0 build)
     from checks import gensaltstream as GS
